@@ -33,7 +33,7 @@ theorem SubMultiset.length_le {α : Type} {l₁ l₂ : List α} (h : SubMultiset
 
 theorem SubMultiset.of_sublist_perm {α : Type} {a b c : List α} (h1 : a.Sublist b) (h2 : b.Perm c) : SubMultiset a c := by
   induction h1 generalizing c with
-  | slnil => exact ⟨c, by simp [h2]⟩
+  | slnil => exact ⟨c, by simp⟩
   | @cons l₁ l₂ x _ ih =>
     -- x is dropped: it goes to the rest
     obtain ⟨rest, hp⟩ := ih (List.Perm.refl l₂)
